@@ -4,7 +4,11 @@ REPO=${VERIF_REPO:-/repo}
 export GOFLAGS=-mod=mod GOPROXY=off GONOSUMDB='github.com/anishathalye/*,go.etcd.io/*'
 unset GOTOOLCHAIN GOSUMDB 2>/dev/null || true
 export VERIF_DIR=$VERIF VERIF_REPO=$REPO
-B=$VERIF/build
+if [ "$REPO" = /repo ]; then B=$VERIF/build; else
+  # a scratch worktree (mutant / seeded change): separate build dir, evidence and replays
+  B=$VERIF/build/alt/$(echo "$REPO" | tr '/' '_')
+  export VERIF_EVIDENCE_DIR=$B/evidence VERIF_REPLAY_DIR=$B/replays
+fi
 
 # gen_build: (re)generate build/overlay.json, build/go.mod, build/go.sum from the
 # current /repo tree and the files under harness/ and hooks/. Atomic (tmp + mv).
